@@ -197,19 +197,41 @@ def any_of_tags(tags):
     return a
 
 
+def enc_tag(t):
+    """the standard's encoding of one tag (clause 20.2.1), written here independently of the
+    library's Tag.encode: [class, number, LVT, data hex] -> octets"""
+    cls, num, lvt, data = t[0], t[1], t[2], bytes.fromhex(t[3])
+    first = (num << 4) if num < 15 else 0xF0
+    if cls == 1:
+        first |= 0x08
+    out = bytearray()
+    if cls == 2:
+        first |= 0x0E
+    elif cls == 3:
+        first |= 0x0F
+    else:
+        first |= lvt if lvt < 5 else 5
+    out.append(first)
+    if num >= 15:
+        out.append(num)
+    if cls in (0, 1) and lvt >= 5:
+        if lvt <= 253:
+            out.append(lvt)
+        elif lvt <= 65535:
+            out += bytes([254, lvt >> 8, lvt & 255])
+        else:
+            out += bytes([255]) + lvt.to_bytes(4, "big")
+    return bytes(out) + data
+
+
 def hex_of_tags(tags):
-    from bacpypes.primitivedata import Tag, TagList
-    from bacpypes.pdu import PDUData
-    pdu = PDUData()
-    TagList([Tag(t[0], t[1], t[2], bytes.fromhex(t[3])) for t in tags]).encode(pdu)
-    return bytes(pdu.pduData).hex()
+    """octets of a tag list — by the harness's own encoder, so that every comparison of a reply
+    with what was written / stored is a comparison of DECODED tags (class, number, content)"""
+    return b"".join(enc_tag(t) for t in tags).hex()
 
 
 def hex_of_any(a):
-    from bacpypes.pdu import PDUData
-    pdu = PDUData()
-    a.tagList.encode(pdu)
-    return bytes(pdu.pduData).hex()
+    return hex_of_tags(jt(a.tagList))
 
 
 def elem_item(E, sub, v):
@@ -273,6 +295,30 @@ def atom_classes():
     return ATOM_CLASSES
 
 
+def string_like(klass):
+    from bacpypes import primitivedata as pd
+    return isinstance(klass, type) and issubclass(klass, (pd.OctetString, pd.CharacterString, pd.BitString))
+
+
+def boundary_value(klass, rng, big=False):
+    """a string-like value whose tag content sits at a length-escape boundary: content of
+    253 / 254 / 255 / 256 / 257 octets (one-octet length up to 253, then the 254 escape), or — `big`
+    — 65 535 / 65 536 octets (the 255 escape)"""
+    from bacpypes import primitivedata as pd
+    n = rng.choice([65535, 65536]) if big else rng.choice([253, 254, 254, 255, 256, 257])
+    if issubclass(klass, pd.OctetString):
+        return bytes((i * 7 + n) & 255 for i in range(n))
+    if issubclass(klass, pd.CharacterString):
+        # content = character-set octet + UTF-8 octets
+        body = "".join(chr(97 + (i % 26)) for i in range(n - 1))
+        if not big and rng.random() < 0.3:
+            body = body[:-2] + "é"              # two UTF-8 octets: same octet count
+        return body
+    # bit string: content = unused-bits octet + ceil(bits / 8) octets
+    bits = (n - 1) * 8 - rng.choice([0, 1, 7])
+    return [(i * 5 + n) % 3 & 1 for i in range(bits)]
+
+
 def gen_atomic(klass, rng):
     """a native Python value valid for the atomic class"""
     from bacpypes import primitivedata as pd
@@ -299,6 +345,8 @@ def gen_atomic(klass, rng):
             v = struct.unpack(">d", struct.pack(">Q", bits))[0]
             if v == v and not (v == 0 and bits != 0):
                 return v
+    if issubclass(klass, (pd.OctetString, pd.CharacterString, pd.BitString)) and rng.random() < 0.05:
+        return boundary_value(klass, rng)
     if issubclass(klass, pd.OctetString):
         return bytes(rng.getrandbits(8) for _ in range(rng.choice([0, 1, 2, 5, 9])))
     if issubclass(klass, pd.CharacterString):
@@ -944,7 +992,59 @@ def directed_ops(E, fx, rng, limit=70):
                     ops.append({"op": "wp", "oid": oid, "pid": E.pidnum["presentValue"], "idx": None, "tags": tags,
                                 "prio": prio, "vclass": "typed"})
     rng.shuffle(ops)
-    return falsy_command_ops(E, fx, rng) + must + ops[:limit]
+    return falsy_command_ops(E, fx, rng) + must + boundary_ops(E, fx, rng) + ops[:limit]
+
+
+THOROUGH = [0]
+
+
+def boundary_ops(E, fx, rng, per_object=3):
+    """string-like leaves at the tag-length escape boundaries, written as a whole property, as an
+    array element and as list / array members, each read back by ReadProperty (the write oracle)
+    AND by ReadPropertyMultiple; in thorough one value of 65 535 / 65 536 octets per scenario"""
+    from bacpypes.constructeddata import Array, List, Any
+    ops = []
+    big_left = 1 if THOROUGH[0] > 0 else 0          # one such value per shard (they are slow to snapshot)
+    for spec, inst in fx.all_objects():
+        t, i = inst._values["objectIdentifier"]
+        oid = [E.otnum[t], i]
+        cands = []
+        for name, p in inst._properties.items():
+            dt = p.datatype
+            k = dt.subtype if issubclass(dt, (Array, List)) else dt
+            if string_like(k) and p.mutable and inst._values.get(name) is not None \
+                    and E.sch.custom(p) == "std" and name not in PROTECTED:
+                cands.append((name, p, k))
+        rng.shuffle(cands)
+        for name, p, k in cands[:per_object]:
+            dt, pid = p.datatype, E.pidnum[name]
+            big = big_left > 0 and not issubclass(dt, (Array, List))
+            if big:
+                big_left -= 1
+                THOROUGH[0] -= 1
+            mk = lambda: k(boundary_value(k, rng, big=big))
+            a = Any()
+            idx = None
+            if issubclass(dt, Array):
+                n = cur_len(inst, name)
+                fixed = getattr(dt, "fixed_length", None)
+                if n >= 1 and rng.random() < 0.5:
+                    idx = rng.choice([1, n])
+                    a.cast_in(mk())
+                else:
+                    m = fixed if fixed is not None else rng.choice([1, 2])
+                    for _ in range(m):
+                        a.cast_in(mk() if rng.random() < 0.7 else k(gen_atomic(k, rng)))
+            elif issubclass(dt, List):
+                for _ in range(rng.choice([1, 2])):
+                    a.cast_in(mk())
+            else:
+                a.cast_in(mk())
+            ops.append({"op": "wp", "oid": oid, "pid": pid, "idx": idx, "tags": jt(a.tagList), "prio": None,
+                        "vclass": "typed", "boundary": True})
+            refs = [{"pid": pid, "idx": idx}] + ([{"pid": pid, "idx": None}] if idx is not None else [])
+            ops.append({"op": "rpm", "specs": [{"oid": oid, "refs": refs}]})
+    return ops
 
 
 def falsy_tags(dt):
@@ -1195,6 +1295,12 @@ def oracle_write(ctx, E, fx, case, op, f, rep, before, after, wire):
         if not is_err(rep, "property", "writeAccessDenied"):
             bad("error-matches", "well-typed write to a read-only property answered %r" % (rep,))
         return
+    # (a value that encodes as the single application Null tag — the null alternative of a Choice —
+    #  is taken by the handler for "Null" and refused: the handler's Null special case, notes/C15.md)
+    if typed and op["tags"] != [[0, 0, 0, ""]] and kind == "reject" and (p.mutable or (f["is_cmd"] and p.identifier == "presentValue")):
+        bad("typed", "a value of the property's own datatype (accepted by the client-side decoder) was answered "
+            "with Reject %r" % (rep.get("reason"),))
+        return
     if op.get("vclass") in ("null",) and not f["is_cmd"] and acked:
         bad("typed", "Null written to a non-commandable property was acknowledged")
         return
@@ -1244,8 +1350,15 @@ def oracle_write(ctx, E, fx, case, op, f, rep, before, after, wire):
             bad("write-then-read", "length reads %r after writing %s" % (back, written))
         return
     if back.get("r") != "ack" or back.get("hex") != written:
-        bad("write-then-read", "reads %r after acknowledged write of %s" % (back, written))
+        bad("write-then-read", "reads %r after acknowledged write of %s" % (short(back), written[:120]))
         return
+    if op.get("boundary"):
+        # ... and ReadPropertyMultiple shows the same decoded value
+        m = run_op(E, fx, {"op": "rpm", "specs": [{"oid": op["oid"], "refs": [{"pid": op["pid"], "idx": idx}]}]})[1]
+        els = [e for res in m.get("res", []) for e in res["els"]] if m.get("r") == "ack" else []
+        if len(els) != 1 or els[0].get("val") != written:
+            bad("write-then-read", "ReadPropertyMultiple reads %r after acknowledged write of %s" % (short(m), written[:120]))
+            return
     if idx is None and f["array"]:
         # element-wise: index 0 is the count, index k the k-th written element
         chunks = wire["chunks"]
@@ -1257,6 +1370,12 @@ def oracle_write(ctx, E, fx, case, op, f, rep, before, after, wire):
             bk = rp(E, fx, op["oid"], op["pid"], k)
             if bk.get("r") != "ack" or bk.get("hex") != hex_of_tags(ch):
                 bad("write-then-read", "element %d reads %r after writing %s" % (k, bk, hex_of_tags(ch)))
+
+
+def short(rep):
+    """a reply with long value octets cut, for messages"""
+    txt = json.dumps(rep)
+    return rep if len(txt) < 400 else txt[:400] + "..."
 
 
 def oracle_present_value(ctx, E, fx, case, op, rep):
@@ -1500,6 +1619,7 @@ def type_rotation(E, rng, k, n):
 def shard(ctx, spec):
     E = env()
     label, n_scen, k_types, n_ops = spec
+    THOROUGH[0] = 0 if ctx.quick else 1
     rng = ctx.sub_rng("c15/" + label)
     results = []
     for types in type_rotation(E, rng, k_types, n_scen):
